@@ -571,8 +571,23 @@ fn cmd_check(args: &Args) -> i32 {
             });
             let _ = std::fs::write(&file, serde_json::to_string_pretty(&body).unwrap());
             if !replay_in_fresh_process(&file, &v.class) {
-                notes.push("replay of the reported scenario did not reproduce in a fresh process".into());
-                eprintln!("WARNING: replay of {file} did not reproduce in a fresh process");
+                // The scenario alone does not reproduce: the violation needs state that EARLIER runs of
+                // the same child process left behind (a thread-local or a static). Fall back to a
+                // replay by seed: the exact sequence of runs that child executed, up to the failing one.
+                let w = args.workers.max(1) as u64;
+                let body = json!({
+                    "property": eng.id(), "class": v.class, "signature": v.signature, "detail": v.detail,
+                    "verif_seed": args.seed, "run_index": idx,
+                    "by_seed": {"seed": args.seed, "quick": quick, "to": idx + 1, "offset": idx % w, "stride": w},
+                    "scenario": v.scenario,
+                });
+                let _ = std::fs::write(&file, serde_json::to_string_pretty(&body).unwrap());
+                if replay_in_fresh_process(&file, &v.class) {
+                    notes.push("the violation needs state carried over from earlier runs of the same process; the replay file re-executes that run sequence by seed".into());
+                } else {
+                    notes.push("replay of the reported scenario did not reproduce in a fresh process".into());
+                    eprintln!("WARNING: replay of {file} did not reproduce in a fresh process");
+                }
             }
         }
         println!("violation class={} run_index={} detail: {}", v.class, idx, vmin.detail);
@@ -632,6 +647,24 @@ fn cmd_replay(args: &Args) -> i32 {
         return 2;
     };
     let want = j.get("class").and_then(|p| p.as_str()).unwrap_or("").to_string();
+    if let Some(bs) = j.get("by_seed") {
+        // re-execute, in this fresh process and on one worker, the run sequence of the child that found it
+        let seed = bs["seed"].as_u64().unwrap_or(1);
+        let quick = bs["quick"].as_bool().unwrap_or(true);
+        let span = Span { from: 0, to: bs["to"].as_u64().unwrap_or(1), offset: bs["offset"].as_u64().unwrap_or(0), stride: bs["stride"].as_u64().unwrap_or(1).max(1) };
+        let agg = run_batch_inproc(eng.as_ref(), seed, quick, span, 1, &[], false, None, None);
+        return match agg.violations.first() {
+            Some((i, v)) => {
+                println!("replayed by seed (runs {}, {}+{}.. up to {}): class={} at run {} detail: {}", span.offset, span.offset, span.stride, span.to - 1, v.class, i, v.detail);
+                println!("VIOLATION property={} replay={}", prop, args.target);
+                1
+            }
+            None => {
+                println!("replay of {} (by seed) did not violate {} (recorded class {})", args.target, prop, want);
+                0
+            }
+        };
+    }
     match sched::catch(|| eng.replay(&j["scenario"])) {
         Ok(Ok(Some(v))) => {
             println!("replayed: class={} detail: {}", v.class, v.detail);
